@@ -83,6 +83,9 @@ def api(call, fn, *a, **kw):
 
 ENV = {}
 _KNOB_SITES = None
+# only names that say "tuning constant": a unit factor or another semantic constant (NS_PER_S = 10**9) must never be shrunk
+import re as _re
+_KNOB_NAME = _re.compile(r'(LIMIT|MAX|CAP|SIZE|CACHE|CHUNK|BATCH|THRESH|PENDING|BUF|QUEUE|POOL|WINDOW_LEN|DEPTH)')
 
 
 def _knob_sites():
@@ -102,7 +105,7 @@ def _knob_sites():
             holders = [mod] + [c for _, c in inspect.getmembers(mod, inspect.isclass) if getattr(c, '__module__', None) == mod.__name__]
             for h in holders:
                 for k, v in list(vars(h).items()):
-                    if k.isupper() and len(k) >= 3 and type(v) is int and v >= 16:
+                    if k.isupper() and len(k) >= 3 and type(v) is int and v >= 16 and _KNOB_NAME.search(k):
                         sites.append((h, k, v))
         _KNOB_SITES = sites
     return _KNOB_SITES
